@@ -1,1 +1,157 @@
-//! oracle for rc2 — to be written from the specification
+//! RC2 (RFC 2268), written from the RFC's description: key expansion (section 2) with effective key length T1,
+//! "mix up" / "mash" rounds (section 3), "r-mix up" / "r-mash" (section 4).
+//! PITABLE is data of the RFC ("a random permutation of 0..255 derived from the expansion of pi"); copied from the
+//! repository's rc2/src/consts.rs.
+
+pub const PITABLE: [u8; 256] = [
+    217, 120, 249, 196, 25, 221, 181, 237, 40, 233, 253, 121, 74, 160, 216, 157, 198, 126, 55, 131,
+    43, 118, 83, 142, 98, 76, 100, 136, 68, 139, 251, 162, 23, 154, 89, 245, 135, 179, 79, 19, 97,
+    69, 109, 141, 9, 129, 125, 50, 189, 143, 64, 235, 134, 183, 123, 11, 240, 149, 33, 34, 92, 107,
+    78, 130, 84, 214, 101, 147, 206, 96, 178, 28, 115, 86, 192, 20, 167, 140, 241, 220, 18, 117,
+    202, 31, 59, 190, 228, 209, 66, 61, 212, 48, 163, 60, 182, 38, 111, 191, 14, 218, 70, 105, 7,
+    87, 39, 242, 29, 155, 188, 148, 67, 3, 248, 17, 199, 246, 144, 239, 62, 231, 6, 195, 213, 47,
+    200, 102, 30, 215, 8, 232, 234, 222, 128, 82, 238, 247, 132, 170, 114, 172, 53, 77, 106, 42,
+    150, 26, 210, 113, 90, 21, 73, 116, 75, 159, 208, 94, 4, 24, 164, 236, 194, 224, 65, 110, 15,
+    81, 203, 204, 36, 145, 175, 80, 161, 244, 112, 57, 153, 124, 58, 133, 35, 184, 180, 122, 252,
+    2, 54, 91, 37, 85, 151, 49, 45, 93, 250, 152, 227, 138, 146, 174, 5, 223, 41, 16, 103, 108,
+    186, 201, 211, 0, 230, 207, 225, 158, 168, 44, 99, 22, 1, 63, 88, 226, 137, 169, 13, 56, 52,
+    27, 171, 51, 255, 176, 187, 72, 12, 95, 185, 177, 205, 46, 197, 243, 219, 71, 229, 165, 156,
+    119, 10, 166, 32, 104, 254, 127, 193, 173,
+];
+
+/// Key expansion: `key[..t]` is the supplied key (1 <= t <= 128), `t1` the effective key length in bits
+/// (1 <= t1 <= 1024).  Returns K[0..63] with K[i] = L[2i] + 256*L[2i+1].
+pub fn expand_key(key: &[u8; 128], t: usize, t1: usize) -> [u16; 64] {
+    let t8 = (t1 + 7) / 8;
+    // TM = 255 MOD 2^(8 + T1 - 8*T8)
+    let tm = (255u32 % (1u32 << (8 + t1 - 8 * t8))) as u8;
+    let mut l = [0u8; 128];
+    let mut i = 0;
+    while i < t {
+        l[i] = key[i];
+        i += 1;
+    }
+    // for i = T, T+1, ..., 127 do L[i] = PITABLE[L[i-1] + L[i-T]] (addition mod 256)
+    i = t;
+    while i <= 127 {
+        l[i] = PITABLE[(l[i - 1] as usize + l[i - t] as usize) % 256];
+        i += 1;
+    }
+    // L[128-T8] = PITABLE[L[128-T8] & TM]
+    l[128 - t8] = PITABLE[(l[128 - t8] & tm) as usize];
+    // for i = 127-T8 down to 0 do L[i] = PITABLE[L[i+1] XOR L[i+T8]]
+    i = 128 - t8;
+    while i > 0 {
+        i -= 1;
+        l[i] = PITABLE[(l[i + 1] ^ l[i + t8]) as usize];
+    }
+    let mut k = [0u16; 64];
+    i = 0;
+    while i < 64 {
+        k[i] = (l[2 * i] as u16) + 256 * (l[2 * i + 1] as u16);
+        i += 1;
+    }
+    k
+}
+
+const S: [u32; 4] = [1, 2, 3, 5];
+
+/// Mix up R[i]: R[i] = R[i] + K[j] + (R[i-1] & R[i-2]) + ((~R[i-1]) & R[i-3]); j = j + 1; R[i] = R[i] rol s[i]
+fn mix_up(r: &mut [u16; 4], i: usize, k: &[u16; 64], j: &mut usize) {
+    let r1 = r[(i + 3) % 4];
+    let r2 = r[(i + 2) % 4];
+    let r3 = r[(i + 1) % 4];
+    r[i] = r[i].wrapping_add(k[*j]).wrapping_add(r1 & r2).wrapping_add(!r1 & r3);
+    *j += 1;
+    r[i] = r[i].rotate_left(S[i]);
+}
+/// Mash R[i]: R[i] = R[i] + K[R[i-1] & 63]
+fn mash(r: &mut [u16; 4], i: usize, k: &[u16; 64]) {
+    r[i] = r[i].wrapping_add(k[(r[(i + 3) % 4] & 63) as usize]);
+}
+/// R-Mix up R[i]: R[i] = R[i] ror s[i]; R[i] = R[i] - K[j] - (R[i-1] & R[i-2]) - ((~R[i-1]) & R[i-3]); j = j - 1
+fn r_mix_up(r: &mut [u16; 4], i: usize, k: &[u16; 64], j: &mut usize) {
+    let r1 = r[(i + 3) % 4];
+    let r2 = r[(i + 2) % 4];
+    let r3 = r[(i + 1) % 4];
+    r[i] = r[i].rotate_right(S[i]);
+    r[i] = r[i].wrapping_sub(k[*j]).wrapping_sub(r1 & r2).wrapping_sub(!r1 & r3);
+    *j = j.wrapping_sub(1);
+}
+/// R-Mash R[i]: R[i] = R[i] - K[R[i-1] & 63]
+fn r_mash(r: &mut [u16; 4], i: usize, k: &[u16; 64]) {
+    r[i] = r[i].wrapping_sub(k[(r[(i + 3) % 4] & 63) as usize]);
+}
+
+fn load(b: &[u8; 8]) -> [u16; 4] {
+    let mut r = [0u16; 4];
+    let mut i = 0;
+    while i < 4 {
+        r[i] = (b[2 * i] as u16) + 256 * (b[2 * i + 1] as u16);
+        i += 1;
+    }
+    r
+}
+fn store(r: &[u16; 4]) -> [u8; 8] {
+    let mut o = [0u8; 8];
+    let mut i = 0;
+    while i < 4 {
+        o[2 * i] = (r[i] & 255) as u8;
+        o[2 * i + 1] = (r[i] >> 8) as u8;
+        i += 1;
+    }
+    o
+}
+
+/// 5 mixing rounds, 1 mashing round, 6 mixing rounds, 1 mashing round, 5 mixing rounds.
+pub fn encrypt_k(k: &[u16; 64], block: &[u8; 8]) -> [u8; 8] {
+    let mut r = load(block);
+    let mut j = 0usize;
+    let mut round = 0;
+    while round < 16 {
+        let mut i = 0;
+        while i < 4 {
+            mix_up(&mut r, i, k, &mut j);
+            i += 1;
+        }
+        if round == 4 || round == 10 {
+            i = 0;
+            while i < 4 {
+                mash(&mut r, i, k);
+                i += 1;
+            }
+        }
+        round += 1;
+    }
+    store(&r)
+}
+
+/// 5 r-mixing rounds, 1 r-mashing round, 6 r-mixing rounds, 1 r-mashing round, 5 r-mixing rounds; j starts at 63.
+pub fn decrypt_k(k: &[u16; 64], block: &[u8; 8]) -> [u8; 8] {
+    let mut r = load(block);
+    let mut j = 63usize;
+    let mut round = 0;
+    while round < 16 {
+        let mut n = 0;
+        while n < 4 {
+            r_mix_up(&mut r, 3 - n, k, &mut j);
+            n += 1;
+        }
+        if round == 4 || round == 10 {
+            n = 0;
+            while n < 4 {
+                r_mash(&mut r, 3 - n, k);
+                n += 1;
+            }
+        }
+        round += 1;
+    }
+    store(&r)
+}
+
+pub fn encrypt(key: &[u8; 128], t: usize, t1: usize, block: &[u8; 8]) -> [u8; 8] {
+    encrypt_k(&expand_key(key, t, t1), block)
+}
+pub fn decrypt(key: &[u8; 128], t: usize, t1: usize, block: &[u8; 8]) -> [u8; 8] {
+    decrypt_k(&expand_key(key, t, t1), block)
+}
